@@ -68,7 +68,7 @@ impl FromStr for Signature {
 
     fn from_str(s: &str) -> Result<Self, Self::Err> {
         let mut signature = [0; 65];
-        hex::decode_to_slice(s, &mut signature)?;
+        hex::decode_to_slice(s.strip_prefix("0x").unwrap_or(s), &mut signature)?;
 
         let v = signature[64];
         let y_parity = match v {
@@ -81,8 +81,7 @@ impl FromStr for Signature {
             ecdsa::Signature::from_scalars(
                 <[u8; 32]>::try_from(&signature[0..32])?,
                 <[u8; 32]>::try_from(&signature[32..64])?,
-            )
-            .unwrap(),
+            )?,
             y_parity.try_into()?,
         ))
     }
